@@ -1,9 +1,13 @@
 package engine
 
 import (
+	"bufio"
+	"net"
+	"net/http"
 	"strings"
 	"time"
 
+	ws "github.com/gorilla/websocket"
 	"github.com/zishang520/engine.io-go-parser/packet"
 	"github.com/zishang520/engine.io/v2/config"
 	"github.com/zishang520/engine.io/v2/transports"
@@ -284,5 +288,67 @@ func VerifH_C08_gate() {
 				verif.Assert(w.sock.Upgrading() && first.ListenerCount("packet") == 1, "the candidate already being entertained is untouched")
 			}
 		}
+	})
+}
+
+// newGateConn: a WebSocket connection object for a candidate that reaches the server's
+// upgrade gate.  Symbolically the modelled gorilla connection (silent peer); natively a real
+// gorilla server connection over an in-memory pipe whose client stays silent.
+func newGateConn() *types.WebSocketConn {
+	if verif.Symbolic() {
+		return &types.WebSocketConn{EventEmitter: types.NewEventEmitter(), Conn: &ws.Conn{}}
+	}
+	cli, srv := net.Pipe()
+	verif.Cleanup(func() { cli.Close(); srv.Close() })
+	done := make(chan *ws.Conn, 1)
+	go func() {
+		req, err := http.ReadRequest(bufio.NewReader(srv))
+		if err != nil {
+			done <- nil
+			return
+		}
+		up := ws.Upgrader{}
+		c, _ := up.Upgrade(&hijackWriter{conn: srv}, req, nil)
+		done <- c
+	}()
+	go ws.NewClient(cli, mustURL("ws://engine.test/engine.io/"), nil, 1024, 1024)
+	c := <-done
+	if c == nil {
+		panic(verif.AssumeFailed{Msg: "native websocket handshake over the pipe failed"})
+	}
+	return &types.WebSocketConn{EventEmitter: types.NewEventEmitter(), Conn: c}
+}
+
+// VerifH_C08_second_candidate_during_upgrade: a second upgrade candidate for the same
+// session reaches the server's real gate (server.onWebSocket) at any yield point of the
+// first candidate's exchange (debug-log calls, and the old transport's 'close' event inside
+// the switch): while a candidate is being entertained and after the switch it must be
+// refused, so the session entertains one candidate and is upgraded at most once.
+func VerifH_C08_second_candidate_during_upgrade() {
+	verif.RunTimed(func() {
+		w := newUpWorld()
+		cand := w.candidate()
+		w.ft.On("close", func(...any) { verif.Yield("old transport closes") })
+		admitted := false
+		verif.Event("a second candidate reaches the gate", func() {
+			ctx, _ := newCtx("GET", "/engine.io/")
+			ctx.Query().Set("transport", transports.WEBSOCKET)
+			ctx.Query().Set("EIO", "4")
+			ctx.Query().Set("sid", w.sock.Id())
+			wsc := newGateConn()
+			refused := false
+			wsc.On("close", func(...any) { refused = true })
+			w.ps.onWebSocket(ctx, wsc) // a refused candidate's connection is closed by the gate
+			admitted = !refused
+		})
+		w.sock.MaybeUpgrade(cand)
+		verif.InjectBudget(1)
+		cand.OnPacket(probePing())
+		cand.complete()
+		cand.OnPacket(&packet.Packet{Type: packet.UPGRADE, Data: types.NewStringBufferString("")})
+		verif.InjectBudget(0)
+		verif.Settle()
+		verif.Assert(!admitted, "no second candidate is admitted while one is entertained or after the switch")
+		verif.Assert(w.events.count("upgrade") == 1 && w.sock.Transport() == transports.Transport(cand), "the session is upgraded exactly once, to the first candidate")
 	})
 }
